@@ -30,7 +30,7 @@ func c12Gen(r *RNG, id string) *Case {
 	if r.Chance(1, 4) { // the exported order-restoring writers under an adversarial arrival order
 		return reordGen(r, id)
 	}
-	kinds := []string{"snps", "snps-agg", "variants", "variants-agg", "variants-gff-shared", "toma", "topa-dir", "topa-stdout", "samvariants", "samvariants-agg", "samvariants-twins", "samvariants-twins", "samvariants-twins",
+	kinds := []string{"snps", "snps-agg", "variants", "variants-agg", "variants-gff-shared", "toma", "topa-dir", "topa-stdout", "samvariants", "samvariants-agg", "samvariants-twins", "samvariants-twins", "samvariants-twins", "topa-stdout", "topa-stdout",
 		"closest", "closest-n", "list", "topranking", "topranking-push", "topranking-csv", "topranking-ignore"}
 	kind := kinds[r.Intn(len(kinds))]
 	c := NewCase("REL", id)
@@ -189,10 +189,18 @@ func execC12(c *Case) {
 		_ = txt0
 		// replicate the queries under new names
 		var all []samRec
-		for k := 0; k < 40; k++ {
+		copies := 40
+		if kind == "topa-stdout" {
+			// well over what a pipe holds (64 KiB): a writer that is still flushing when the command returns loses the tail
+			copies = 1 + 200000/(2*(atoi(sv.Get("reflen"))+12)*len(blockNames(recs))+1)
+			if copies > 999 {
+				copies = 999
+			}
+		}
+		for k := 0; k < copies; k++ {
 			for _, rec := range recs {
 				rr := rec
-				rr.name = fmt.Sprintf("%s_%02d", rec.name, k)
+				rr.name = fmt.Sprintf("%s_%03d", rec.name, k)
 				all = append(all, rr)
 			}
 		}
@@ -264,6 +272,16 @@ func execC12(c *Case) {
 				}
 				if we > 0 {
 					args = append(args, "--end", fmt.Sprint(we))
+				}
+				if cfg.jitter%3 == 0 { // a consumer that starts reading late and reads slowly
+					o, code, to := runCLISlow(60*time.Second, 150*time.Millisecond, args...)
+					if to {
+						return result{status: "timeout"}
+					}
+					if code != 0 {
+						return result{status: "err:exit " + fmt.Sprint(code)}
+					}
+					return result{out: o, status: "ok"}
 				}
 				o, se, code, to := runCLI(60*time.Second, "", args...)
 				if to {
